@@ -28,8 +28,8 @@ SCALARS = {
     "datetime": {"type": "string", "format": "date-time"},
     "uuid": {"type": "string", "format": "uuid"},
     "any": {},
-    "strenum": {"$ref": "#/components/schemas/StrEnum"},
-    "intenum": {"$ref": "#/components/schemas/IntEnum"},
+    "strenum": {"$ref": "#/components/schemas/Flavor"},
+    "intenum": {"$ref": "#/components/schemas/Level"},
     "inline-enum": {"type": "string", "enum": ["x", "y z", 'q"uote']},
     "nullable-enum": {"type": ["string", "null"], "enum": ["p", "q", None]},
     "const": {"const": "fixed"},
@@ -39,7 +39,7 @@ SCALARS = {
     "nullable-model": {"allOf": [{"$ref": "#/components/schemas/Leaf"}], "nullable": True},
     "list-str": {"type": "array", "items": {"type": "string"}},
     "list-date": {"type": "array", "items": {"type": "string", "format": "date"}},
-    "list-enum": {"type": "array", "items": {"$ref": "#/components/schemas/StrEnum"}},
+    "list-enum": {"type": "array", "items": {"$ref": "#/components/schemas/Flavor"}},
     "list-model": {"type": "array", "items": {"$ref": "#/components/schemas/Leaf"}},
     "union-str-model": {"oneOf": [{"type": "string"}, {"$ref": "#/components/schemas/Leaf"}]},
     "union-model-str": {"oneOf": [{"$ref": "#/components/schemas/Leaf"}, {"type": "string"}]},
@@ -57,8 +57,8 @@ def _class_name(kind, req, dflt):
 
 def document(openapi="3.0.3"):
     comps = {
-        "StrEnum": {"type": "string", "enum": ["a", "B c", "1st", "", 'say "hi"', "it's"]},
-        "IntEnum": {"type": "integer", "enum": [-4, 0, 2]},
+        "Flavor": {"type": "string", "enum": ["a", "B c", "1st", "", 'say "hi"', "it's"]},
+        "Level": {"type": "integer", "enum": [-4, 0, 2]},
         "Leaf": {"type": "object", "required": ["x"], "properties": {"x": {"type": "integer"}, "y-y": {"type": "string"}},
                  "additionalProperties": False},
         "Leaf2": {"type": "object", "required": ["z"], "properties": {"z": {"type": "string"}}, "additionalProperties": False},
